@@ -100,11 +100,21 @@ func RunCase(run *vk.Run, w *world.World, c *coregen.Case, n int, armored bool, 
 		in = armor.NewReader(in)
 	}
 	given := append([]age.Identity(nil), ids...)
-	r, derr := age.Decrypt(in, ids...)
+	var r io.Reader
+	var derr error
+	var pan interface{}
+	func() {
+		defer func() { pan = recover() }()
+		r, derr = age.Decrypt(in, ids...)
+	}()
 	run.Eval(1)
+	if pan != nil {
+		run.Violation(which+":decrypt-panics:"+sig, fmt.Sprintf("Decrypt of a file for [%s] with identities [%s] panicked: %v", coregen.RecipSig(c.Rs), strings.Join(c.Ids, ","), pan), rp)
+		return
+	}
 	for i := range given {
 		// the caller's list is the caller's: a Decrypt that reorders it changes the order of consultation of the next call
-		if ids[i] != given[i] {
+		if !world.SameIdentity(ids[i], given[i]) {
 			run.Violation(which+":identity-list-modified:"+sig, fmt.Sprintf("after Decrypt the caller's identity slice [%s] has a different order", strings.Join(c.Ids, ",")), rp)
 			break
 		}
@@ -117,9 +127,17 @@ func RunCase(run *vk.Run, w *world.World, c *coregen.Case, n int, armored bool, 
 			run.Violation("C01:listed-recipient-cannot-decrypt:"+sig, fmt.Sprintf("file for [%s] (%d bytes, armor=%v) with identities [%s]: %v", coregen.RecipSig(c.Rs), n, armored, strings.Join(c.Ids, ","), derr), rp)
 			return
 		}
-		res := strm.Drain(r, []string{"readall", "copy", "buf4096"}[pol%3])
+		// the plaintext is taken in one of a dozen caller styles (ReadAll, io.Copy, a peek then io.Copy, buffers
+		// below and above a chunk, a growing bytes.Buffer, ...), a permutation of the write policy shifted by the lists
+		readPol := strm.BulkPolicies[(pol*5+len(c.Ids)+len(c.Rs))%len(strm.BulkPolicies)]
+		rp["read"] = readPol
+		res := strm.Drain(r, readPol)
+		if res.Panic != nil {
+			run.Violation("C01:wrong-plaintext:"+sig, fmt.Sprintf("reading the plaintext as %q panicked: %v", readPol, res.Panic), rp)
+			return
+		}
 		if res.Err != io.EOF || !bytes.Equal(res.Data, pt[:n]) {
-			run.Violation("C01:wrong-plaintext:"+sig, fmt.Sprintf("decrypted %d of %d bytes, ending %v", len(res.Data), n, res.Err), rp)
+			run.Violation("C01:wrong-plaintext:"+sig, fmt.Sprintf("decrypted %d of %d bytes (read as %q), ending %v", len(res.Data), n, readPol, res.Err), rp)
 			return
 		}
 		want := make([]string, c.Opener)
@@ -238,6 +256,7 @@ func runBoth(which, tier string) {
 	c := cases[len(cases)/2]
 	run.Sample(map[string]interface{}{"rs": coregen.RecipSig(c.Rs), "ids": c.Ids, "model_result": c.Res, "opener": c.Opener})
 	if which == "C01" {
+		consumerStyles(run, w, pt)
 		armorAlignment(run, w, pt)
 		workFactorBoundary(run)
 		passphraseRoundTrips(run)
@@ -246,6 +265,56 @@ func runBoth(which, tier string) {
 		nearMisses(run, w, pt)
 	}
 	run.Finish()
+}
+
+// consumerStyles: every caller style of taking the plaintext at every chunk-boundary length, binary and armored.
+func consumerStyles(run *vk.Run, w *world.World, pt []byte) {
+	type job struct {
+		n       int
+		armored bool
+	}
+	var jobs []job
+	for _, n := range []int{0, 1, 600, 65535, 65536, 65537, 131072, 196608} {
+		jobs = append(jobs, job{n, false}, job{n, true})
+	}
+	vk.Parallel(len(jobs), 8, func(i int) {
+		j := jobs[i]
+		var buf bytes.Buffer
+		var sink io.Writer = &buf
+		var aw io.WriteCloser
+		if j.armored {
+			aw = armor.NewWriter(&buf)
+			sink = aw
+		}
+		wc, err := age.Encrypt(sink, w.Recipient("x1"))
+		if err != nil {
+			vk.Infra("consumerStyles: %v", err)
+		}
+		wc.Write(pt[:j.n])
+		wc.Close()
+		if aw != nil {
+			aw.Close()
+		}
+		for _, pol := range strm.BulkPolicies {
+			var in io.Reader = bytes.NewReader(buf.Bytes())
+			if j.armored {
+				in = armor.NewReader(in)
+			}
+			r, err := age.Decrypt(in, w.Identity("x1"))
+			run.Eval(1)
+			sig := fmt.Sprintf("consumer:%s/n=%d/armor=%v", pol, j.n, j.armored)
+			rp := map[string]interface{}{"check": "C01.consumer", "n": j.n, "armored": j.armored, "read": pol, "seed": run.Seed}
+			if err != nil {
+				run.Violation("C01:listed-recipient-cannot-decrypt:"+sig, err.Error(), rp)
+				continue
+			}
+			res := strm.Drain(r, pol)
+			if res.Panic != nil || res.Err != io.EOF || !bytes.Equal(res.Data, pt[:j.n]) {
+				run.Violation("C01:wrong-plaintext:"+sig, fmt.Sprintf("a %d-byte file read as %q gives %d bytes ending %v (panic: %v)", j.n, pol, len(res.Data), res.Err, res.Panic), rp)
+			}
+			run.Distinct(sig)
+		}
+	})
 }
 
 // armorAlignment: whole-file lengths of 0, 1, 47 mod 48 through the armor, and every plaintext length 0..130.
